@@ -274,6 +274,22 @@ func getServer(cfg Cfg) (*liveServer, error) {
 			}
 			return res, err
 		}
+		// another server of the same process, built afterwards with a different (wide open) authentication
+		// set-up and never started: what its builder enables must not reach the server under test (C03: the
+		// schemes and the authentication callback are those configured for THIS server)
+		twin := lime.NewServerBuilder().Name("twin").Domain(ServerNode.Domain).Instance("twin")
+		twin.ListenInProcess(lime.InProcessAddr(fmt.Sprintf("hs-twin-%d", addr.Port)))
+		twin.EnableGuestAuthentication().EnableTransportAuthentication()
+		twin.EnablePlainAuthentication(func(context.Context, lime.Identity, string) (*lime.AuthenticationResult, error) {
+			return lime.MemberAuthenticationResult(), nil
+		})
+		twin.EnableKeyAuthentication(func(context.Context, lime.Identity, string) (*lime.AuthenticationResult, error) {
+			return lime.MemberAuthenticationResult(), nil
+		})
+		twin.EnableExternalAuthentication(func(context.Context, lime.Identity, string, string) (*lime.AuthenticationResult, error) {
+			return lime.MemberAuthenticationResult(), nil
+		})
+		_ = twin.Build()
 		ls := &liveServer{srv: srv, addr: addr, done: make(chan error, 1)}
 		go func() { ls.done <- srv.ListenAndServe() }()
 		// wait until the listener accepts
